@@ -509,8 +509,10 @@ class Ctx:
         self.cov["traces_validated_against_impl"] = before
         self.cov["tlc_runs"] = [r for r in self.cov["tlc_runs"] if r.get("cfg") != f"selftest_{module}"]
         missed = sorted({names[o] for o in names if o not in bad})
-        self.cov.setdefault("binding_selftest", {})[module] = dict(corrupted_lines=len(rows), rejected=len([o for o in names if o in bad]),
-                                                                   fields=sorted(set(names.values())))
+        st = self.cov.setdefault("binding_selftest", {}).setdefault(module, dict(corrupted_lines=0, rejected=0, fields=[]))
+        st["corrupted_lines"] += len(rows)
+        st["rejected"] += len([o for o in names if o in bad])
+        st["fields"] = sorted(set(st["fields"]) | set(names.values()))
         if missed:
             raise MachineryError(f"binding self-test: {module} accepted lines corrupted in {missed}")
 
